@@ -450,4 +450,96 @@ theorem MTs.evalOr_spec (ctx : Ctx) (doc cost : Nat) :
       | simp
 end
 
+
+/-! ## `prepare` establishes the invariant; the cost loop decides, and decides the plain value -/
+
+mutual
+theorem MT.prepare_good (ctx : Ctx) (doc : Nat) : (t : MT) → (t.prepare doc).Good ctx doc
+  | .doc _ _ _ _ => by simp [MT.prepare, MT.Good]
+  | .brute _ _ => by simp [MT.prepare, MT.Good]
+  | .none => by simp [MT.prepare, MT.Good]
+  | .re _ _ _ _ _ _ _ => by simp [MT.prepare, MT.Good]
+  | .sub s => by
+    simp only [MT.prepare, MT.Good, Sub.Good, Sub.prepare]
+    split <;> simp
+  | .and _ ch => by
+    simp only [MT.prepare, MT.Good]
+    exact ⟨fun b hb => by simp at hb, MTs.prepare_good ctx doc ch⟩
+  | .andLine _ _ ch => by
+    simp only [MT.prepare, MT.Good]
+    exact ⟨fun b hb => by simp at hb, fun b hb => by simp at hb, MTs.prepare_good ctx doc ch, fun _ => trivial⟩
+  | .or _ ch => by
+    simp only [MT.prepare, MT.Good]
+    exact ⟨fun b hb => by simp at hb, MTs.prepare_good ctx doc ch⟩
+  | .not _ c => by
+    simp only [MT.prepare, MT.Good]
+    exact ⟨fun b hb => by simp at hb, MT.prepare_good ctx doc c⟩
+  | .fileName _ c => by
+    simp only [MT.prepare, MT.Good]
+    exact ⟨fun b hb => by simp at hb, MT.prepare_good ctx doc c⟩
+  | .boost _ c => by
+    simp only [MT.prepare, MT.Good]
+    exact ⟨fun b hb => by simp at hb, MT.prepare_good ctx doc c⟩
+  | .noVisit c => by
+    simp only [MT.prepare, MT.Good]
+    exact MT.prepare_good ctx doc c
+theorem MTs.prepare_good (ctx : Ctx) (doc : Nat) : (ch : MTs) → MTs.GoodAll ctx doc (MTs.prepare doc ch)
+  | .nil => by simp [MTs.prepare, MTs.GoodAll]
+  | .cons h t => by
+    simp only [MTs.prepare, MTs.GoodAll]
+    exact ⟨MT.prepare_good ctx doc h, MTs.prepare_good ctx doc t⟩
+end
+
+/-- the cost loop from cost level `cost` with `n` levels to go (`cost + n = 4`, `n ≥ 1`) -/
+theorem evalCosts_spec (ctx : Ctx) (doc : Nat) :
+    ∀ (n cost : Nat) (t : MT) (acc : List St), t.Good ctx doc → cost + (n + 1) = 4 →
+      (evalCosts ctx doc (n + 1) cost t acc).2.1 = some (t.val ctx doc) := by
+  intro n
+  induction n with
+  | zero =>
+    intro cost t acc hg hc
+    have r := MT.eval_spec ctx doc cost t hg
+    simp only [evalCosts]
+    generalize t.eval ctx doc cost = rv at r
+    obtain ⟨st, t'⟩ := rv
+    obtain ⟨g, v, _, p, _⟩ := r
+    simp only at g v p
+    have hc3 : costRegexp ≤ cost := by simp only [costRegexp]; omega
+    have hne := p.2 hc3
+    have hp := p.1 hne
+    cases st with
+    | higher => exact absurd rfl hne
+    | none =>
+      simp only []
+      cases hh : t.val ctx doc <;> simp [hh, St.pred] at hp ⊢
+    | found =>
+      simp only []
+      cases hh : t.val ctx doc <;> simp [hh, St.pred, evalCosts] at hp ⊢
+  | succ n ih =>
+    intro cost t acc hg hc
+    have r := MT.eval_spec ctx doc cost t hg
+    rw [evalCosts]
+    generalize t.eval ctx doc cost = rv at r
+    obtain ⟨st, t'⟩ := rv
+    obtain ⟨g, v, _, p, _⟩ := r
+    simp only at g v p
+    cases st with
+    | higher =>
+      have : cost ≠ costMax := by simp only [costMax]; omega
+      simp only [this, if_false]
+      rw [ih (cost + 1) t' _ g (by omega), v]
+    | none =>
+      simp only []
+      have hp := p.1 (by simp)
+      cases hh : t.val ctx doc <;> simp [hh, St.pred] at hp ⊢
+    | found =>
+      simp only []
+      rw [ih (cost + 1) t' _ g (by omega), v]
+
+/-- **staged evaluation is correct**: on a freshly prepared tree the cost loop of `Search` never reaches
+    `log.Panicf("did not decide")` and its verdict is the plain value of the tree -/
+theorem staged_eval (ctx : Ctx) (doc : Nat) (t : MT) :
+    (evalCosts ctx doc 4 0 (t.prepare doc) []).2.1 = some ((t.prepare doc).val ctx doc) :=
+  evalCosts_spec ctx doc 3 0 _ [] (MT.prepare_good ctx doc t) rfl
+
 end ZoektModel.C01
